@@ -538,7 +538,7 @@ func c13Execute(e *c13Env, idx int, doc *c13Doc, d *dag.DAG, violate func(key, w
 }
 
 func c13Body(c *core.Ctx) {
-	n := c.Pick(18000, 1500000)
+	n := c.Pick(18000, 300000)
 	root, err := os.MkdirTemp(c.Scratch, "c13-")
 	if err != nil {
 		c.Inconclusive("mkdtemp")
